@@ -24,6 +24,7 @@ import (
 
 	"seata.apache.org/seata-go/pkg/datasource/sql/exec"
 	"seata.apache.org/seata-go/pkg/datasource/sql/types"
+	"seata.apache.org/seata-go/pkg/datasource/sql/util"
 	"seata.apache.org/seata-go/pkg/tm"
 	"seata.apache.org/seata-go/pkg/util/log"
 )
@@ -70,6 +71,13 @@ func (c *ATConn) QueryContext(ctx context.Context, query string, args []driver.N
 		return executor.ExecWithNamedValue(ctx, execCtx,
 			func(ctx context.Context, query string, args []driver.NamedValue) (types.ExecResult, error) {
 				ret, err := c.Conn.QueryContext(ctx, query, args)
+				if err == driver.ErrSkip && tm.IsGlobalTx(ctx) {
+					// inside the branch the statement must run here, between its images: handing ErrSkip to
+					// database/sql would end the bracket and re-run the statement through Stmt, outside of it
+					if preparer, ok := c.targetConn.(driver.ConnPrepareContext); ok {
+						ret, err = util.QueryViaPrepare(ctx, preparer, query, args)
+					}
+				}
 				if err != nil {
 					return nil, err
 				}
@@ -109,6 +117,11 @@ func (c *ATConn) ExecContext(ctx context.Context, query string, args []driver.Na
 		ret, err := executor.ExecWithNamedValue(ctx, execCtx,
 			func(ctx context.Context, query string, args []driver.NamedValue) (types.ExecResult, error) {
 				ret, err := c.Conn.ExecContext(ctx, query, args)
+				if err == driver.ErrSkip && tm.IsGlobalTx(ctx) {
+					if preparer, ok := c.targetConn.(driver.ConnPrepareContext); ok {
+						ret, err = util.ExecViaPrepare(ctx, preparer, query, args)
+					}
+				}
 				if err != nil {
 					return nil, err
 				}
